@@ -72,6 +72,24 @@ def point_set(pts, g, real_only):
     return out
 
 
+def tie_points(pts, real_only):
+    """points EXACTLY on decision boundaries (any nearest point is an acceptable decision, a far one is not): midpoints of all nearest-neighbour
+    pairs, and - for constellations symmetric about an axis - points with real or imaginary part exactly 0"""
+    dm = MC.dmin(pts)
+    out = []
+    for i, a in enumerate(pts):
+        for b in pts[:i]:
+            if abs(a - b) <= (1 + 1e-4) * dm:
+                out.append((a + b) / 2)
+    xs = sorted({round(p.real, 9) for p in pts})
+    ys = sorted({round(p.imag, 9) for p in pts})
+    if all(-x in xs for x in xs) and 0.0 not in xs:
+        out += [complex(0.0, y) for y in (ys if not real_only else [0.0])] + [complex(0.0, 0.37 * dm)]
+    if not real_only and all(-y in ys for y in ys) and 0.0 not in ys:
+        out += [complex(x, 0.0) for x in xs] + [complex(0.37 * dm, 0.0), 0j]
+    return out
+
+
 def run_spec(p, res):
     import torch
     spec = p["spec"]
@@ -131,7 +149,7 @@ def run_spec(p, res):
         return [(y, tables[0]) for y in Y]
 
     # ---------- hard decisions
-    Yh = point_set(pts, g, real_only)
+    Yh = point_set(pts, g, real_only) + (tie_points(pts, real_only) if kind == "memoryless" else [])
     for layout in (("1d", "B,N") if kind == "memoryless" or kind == "offset" else ("B,2",)):
         t, _ = present(Yh, layout)
         dps = decision_points(Yh)
